@@ -761,6 +761,65 @@ func runC08(c *cli.Ctx) error {
 		return err
 	}
 
+	// const label values permuted between the label names: same name, same dimensions, same multiset of
+	// values, different label maps - different descriptors (also when some labels come from a wrapper)
+	w = emit.NewWriter(c.Out, "C08", "valperm")
+	for i := 0; i < 150*c.Scale; i++ {
+		nl := 2 + r.Intn(3)
+		names := []string{"src", "dst", "a", "zone"}[:nl]
+		vals := []string{"east", "west", "1", ""}[:nl]
+		if r.Chance(1, 4) {
+			vals[nl-1] = vals[0] // a repeated value: some permutations are the identity
+		}
+		perm := func(kind int) []string {
+			out := append([]string(nil), vals...)
+			switch kind {
+			case 0: // rotate
+				out = append(out[1:], out[0])
+			case 1: // swap the first two
+				out[0], out[1] = out[1], out[0]
+			case 2: // swap first and last
+				out[0], out[nl-1] = out[nl-1], out[0]
+			default: // random shuffle
+				for k := nl - 1; k > 0; k-- {
+					j := r.Intn(k + 1)
+					out[k], out[j] = out[j], out[k]
+				}
+			}
+			return out
+		}
+		// nw of the labels (the last ones) are supplied by a label wrapper instead of the descriptor
+		nw := 0
+		if r.Chance(1, 3) {
+			nw = 1 + r.Intn(nl-1)
+		}
+		mkDesc := func(vs []string) (rawDesc, []wrapper) {
+			d := rawDesc{fq: "m", help: "h", consts: map[string]string{}, vars: []string{"l"}}
+			wl := map[string]string{}
+			for k, n := range names {
+				if k >= nl-nw {
+					wl[n] = vs[k]
+				} else {
+					d.consts[n] = vs[k]
+				}
+			}
+			if nw == 0 {
+				return d, nil
+			}
+			return d, []wrapper{{labels: wl}}
+		}
+		dA, wA := mkDesc(vals)
+		dB, wB := mkDesc(perm(r.Intn(4)))
+		dC, wC := mkDesc(perm(r.Intn(4)))
+		cs := c08Case{pedantic: r.Bool(), colls: [][]rawDesc{{dA}, {dB}, {dC}}}
+		cs.ops = []op{{kind: 0, c: 0, ws: wA}, {kind: 1, c: 1, ws: wB}, {kind: 2}, {kind: 0, c: 1, ws: wB}, {kind: 0, c: 2, ws: wC}, {kind: 2},
+			{kind: 1, c: 0, ws: wA}, {kind: 2}, {kind: 1, c: 2, ws: wC}, {kind: 0, c: 0, ws: wA}, {kind: 2}}
+		addCase(w, cs, []string{fmt.Sprintf("valperm:labels%d", nl), fmt.Sprintf("valperm:wrapped%d", nw)})
+	}
+	if err := w.Flush(); err != nil {
+		return err
+	}
+
 	// concatenation ambiguity: the same bytes split differently over name / const values / help / label names
 	w = emit.NewWriter(c.Out, "C08", "concat")
 	splits := func(s string) [][2]string {
